@@ -257,7 +257,7 @@ class Timedelta(timedelta, Rule):
 
 class EmailStr(Str):
     format = "email"
-    regex = r"([A-Za-z0-9]+[.-_])*[A-Za-z0-9]+@[A-Za-z0-9-]+(\.[A-Z|a-z]{2,})+"
+    regex = r"([A-Za-z0-9]+[._-])*[A-Za-z0-9]+@[A-Za-z0-9-]+(\.[A-Z|a-z]{2,})+"
 
 
 # from pathlib import Path
